@@ -2,6 +2,7 @@
 import configparser
 import io
 import json
+import zlib
 
 KINDS7 = ["packages", "repository", "source_packages", "source_repository", "debug_packages", "debug_repository", "identity"]
 TEXT = [  # value classes of the quantifier (single-line, no leading/trailing blanks)
@@ -326,6 +327,10 @@ def evaluate(case):
                          % (what, ",".join(where), diff[:3]))
     except Exception as exc:
         fails.append("%s: re-read tree cannot be written: %s: %s" % (what, type(exc).__name__, exc))
+    if not fails and zlib.crc32(text.encode("utf-8", "replace")) % 2 == 0:
+        # the same file through real paths: fresh, over a longer previous file, into an open file object
+        from . import core
+        fails += core.file_cycle(t, text, what, ".treeinfo", dump_kw={"main_variant": mv})
     if not fails and len(obj["tops"]) > 1 and obj["main"] == "default":
         # the object is written once with an explicit main variant (the last one); a default dump afterwards is the first file again
         try:
@@ -454,6 +459,14 @@ def eval_disc(case):
             fails.append("%s: %s wrote %r, read %r" % (what, at, getattr(di, at), getattr(d2, at)))
     if d2.dumps() != text:
         fails.append("%s: re-written file differs" % what)
+    if not fails:
+        from . import core
+
+        def reload(src):
+            o = DiscInfo()
+            o.load(src)
+            return o.dumps()
+        fails += core.file_cycle(di, text, what, ".discinfo", reload=reload)
     # a loaded object is edited in place (its disc number list is its own) and written; a later load elsewhere is unaffected
     if not fails:
         try:
